@@ -114,7 +114,12 @@ class Deferred(object):
         if self.request.errors:
             self.result = ('http', self.request.errors[-1])
         elif self.request.pushed:
-            self.result = _decode_body(b''.join(as_bytes(x) for x in self.request.pushed if not hasattr(x, 'more')))
+            body = b''.join(as_bytes(x) for x in self.request.pushed if not hasattr(x, 'more'))
+            cl = self.request.headers.get('Content-Length')
+            if cl is not None and int(cl) != len(body):
+                self.result = ('bad-content-length', (int(cl), len(body)))
+            else:
+                self.result = _decode_body(body)
         else:
             self.result = ('none', out)
         return self.result
@@ -143,5 +148,10 @@ class RpcStack(object):
         if req.channel.producers and not req.pushed:
             return ('deferred', Deferred(req, req.channel.producers[0]))
         if req.pushed:
-            return _decode_body(b''.join(as_bytes(x) for x in req.pushed))
+            body = b''.join(as_bytes(x) for x in req.pushed)
+            # what an HTTP client would see: the declared length must be the number of body bytes
+            cl = req.headers.get('Content-Length')
+            if cl is not None and int(cl) != len(body):
+                return ('bad-content-length', (int(cl), len(body)))
+            return _decode_body(body)
         return ('none', None)
